@@ -79,6 +79,8 @@ Items == Sh.items
 G == Geom(Sh)
 TestMats == {<<-1, 0, 0, 1, 12, -24>>, <<0, 1, -1, 0, 12, 0>>, <<2, 0, 12, 3, 0, 0>>}
 Singular == <<1, 1, 1, 1, 0, 0>>
+RotBlobItem(it) == IF FreeStart(it) /\ Len(it.pts) > 1 THEN Contour(TRUE, SubSeq(it.pts, 2, Len(it.pts)) \o <<it.pts[1]>>) ELSE it
+RotBlobs(items) == [i \in 1..Len(items) |-> RotBlobItem(items[i])]
 StartsOn(items) == \A i \in 1..Len(items) : items[i].k = "c" /\ items[i].cl => (FirstOn(items[i].pts) = 1)
 
 ProtocolOK == Done => Sh.ok /\ WellFormed(Sh) /\ Exact(Sh)
@@ -115,6 +117,14 @@ FillLaws == Done =>
   /\ Area60(GeoFill(G)) = Area60(G)      \* dropping zero lines / closing with the straight line keeps the area
   /\ Area60(GeoT2(G)) = Area60(G)        \* and so does the specializer licence (retraces enclose nothing)
   /\ \A i \in 1..Len(GeoFill(G)) : GeoFill(G)[i].k = "c" => GeoFill(G)[i].cl /\ EndOf(GeoFill(G)[i]) = GeoFill(G)[i].st
+  (* the start point licence of contours without on-curve point: FillTagged is GeoFill with tags; listing the
+     off-curve points of such a contour from another one on (what a TrueType round trip may do) is the same filled
+     geometry with the same area, and is accepted by SameFillStart although the segment lists are rotated *)
+  /\ [i \in 1..Len(FillTagged(Items)) |-> FillTagged(Items)[i][1]] = GeoFill(G)
+  /\ SameFillStart(Items, Items)
+  /\ Exact(Good(RotBlobs(Items))) /\ SameFillStart(Items, RotBlobs(Items))
+  /\ Area60(Geom(Good(RotBlobs(Items)))) = Area60(G)
+  /\ SameUpToStart(GeoFill(Geom(Good(RotBlobs(Items)))), GeoFill(G))
 
 (* ---- constant-level sanity of the arithmetic ---- *)
 ASSUME ComposeLaw == \A t \in TestMats \cup {Singular}, c \in TestMats \cup {Singular}, p \in {<<0, 0>>, <<12, 5>>, <<-7, 24>>} :
